@@ -671,27 +671,42 @@ UnitsMap defineUnitsMap(const UnitsPtr &units)
     return unitsMap;
 }
 
-bool Units::requiresImports() const
+bool unitsRequireImports(const UnitsConstPtr &units, std::vector<const Units *> &unitsOnPath)
 {
     // Function to check child unit dependencies for imports.
-    if (isImport()) {
+    if (units->isImport()) {
         return true;
     }
 
-    auto model = owningModel(shared_from_this());
+    // Units that are defined in terms of themselves: nothing new on this path.
+    if (std::find(unitsOnPath.begin(), unitsOnPath.end(), units.get()) != unitsOnPath.end()) {
+        return false;
+    }
+    unitsOnPath.push_back(units.get());
+
+    bool result = false;
+    auto model = owningModel(units);
     if (model != nullptr) {
-        for (size_t u = 0; u < unitCount(); ++u) {
-            const std::string ref = unitAttributeReference(u);
+        for (size_t u = 0; !result && (u < units->unitCount()); ++u) {
+            const std::string ref = units->unitAttributeReference(u);
             auto child = model->units(ref);
-            if ((child == nullptr) || (this == child.get())) {
+            if ((child == nullptr) || (units.get() == child.get())) {
                 continue;
             }
-            if (child->requiresImports()) {
-                return true;
-            }
+            result = unitsRequireImports(child, unitsOnPath);
         }
     }
-    return false;
+
+    unitsOnPath.pop_back();
+
+    return result;
+}
+
+bool Units::requiresImports() const
+{
+    std::vector<const Units *> unitsOnPath;
+
+    return unitsRequireImports(shared_from_this(), unitsOnPath);
 }
 
 bool Units::compatible(const UnitsPtr &units1, const UnitsPtr &units2)
